@@ -18,7 +18,8 @@ EXPLANATION = (
     'Dynamic side (iter_module_doctestables): FunctionType, staticmethod, classmethod, property are members of the type table; classes are '
     'entered through an isinstance(val, type) branch whose inner loop yields only table members, contains no recursive call and no nested '
     'type branch (one level); static/class methods are unwrapped by __func__, properties by fget only (fset/fdel never read); every yield '
-    'is edge-dominated by is_defined_by_module. Equality of the collected docstring texts and decorated callables are not decided.')
+    'is edge-dominated by is_defined_by_module. Equality of the collected docstring texts and decorated callables are not decided.'
+    ' R3 accepts verdict variables and direct returns; a `return False` for a non-module item must lie behind the failed __module__ test.')
 DECIDES = ['TABLE-AGREE of collector kind tables', 'EXHAUSTIVE static handler kinds']
 NOT_DECIDED = ['equality of the docstring text each side attaches to an identifier', 'callables produced by decorators without functools.wraps', 'definitions inside try blocks']
 
